@@ -100,7 +100,7 @@ func protocolVariant(p protocol.Protocol, v int) protocol.Protocol {
 	case 11:
 		p.MaxMemoryDecompressionFactor *= 2
 	case 12:
-		p.GenesisTime = 3
+		p.GenesisTime *= 2
 	case 13:
 		p.NonceSize *= 2
 	}
